@@ -366,8 +366,16 @@ class C02(Check):
             insp.eat_chunk(data[pos:pos + nb])
             pos += nb
         insp.finish()
-        checks = getattr(insp, '_safety_checks', None)
-        if not isinstance(checks, dict) or not checks:
+        # the registered checks, wherever the inspector keeps them: a dict
+        # or list of SafetyCheck objects among its attributes
+        checks = None
+        for _attr, val in sorted(vars(insp).items()):
+            elems = list(val.values()) if isinstance(val, dict) else (
+                list(val) if isinstance(val, (list, tuple)) else None)
+            if elems and all(isinstance(e, m.SafetyCheck) for e in elems):
+                checks = {e.name: e for e in elems}
+                break
+        if not checks:
             self.bump('probes', 'seam_unavailable_safety_checks')
             return ['seam-unavailable']
         names = sorted(checks)
